@@ -1,9 +1,164 @@
 import Driver.Proto
+import PolyVerif.Model.Readers
 
 namespace Driver.C14
+open PolyVerif PolyVerif.Readers
 
-/-- one request -> one answer line; `none` = unknown op / malformed -/
-def handle (_op : String) (_args : List String) : Option String := none
+/-! protocol helpers -/
+
+def hexBytesAux : List Char → List UInt8 → Option (List UInt8)
+  | [], acc => some acc.reverse
+  | [_], _ => none
+  | a :: b :: rest, acc => do
+      let x ← hexDigit a; let y ← hexDigit b
+      hexBytesAux rest (UInt8.ofNat (x * 16 + y) :: acc)
+
+/-- lower-case hex byte string; "-" is the empty string -/
+def hexBytes? (s : String) : Option (List UInt8) :=
+  if s == "-" then some [] else hexBytesAux s.toList []
+
+/-- cut specification: "all" = every k in 0..len, otherwise a comma-separated list;
+    an entry "k" cuts at k, an entry "k=d" (SPZ) means: compressed cut k delivered d decompressed bytes,
+    "k=x": gzip rejected the stream itself -/
+def cuts? (spec : String) (len : Nat) : Option (List (Nat × Option Nat)) :=
+  if spec == "all" then some ((List.range (len + 1)).map fun k => (k, some k))
+  else (spec.splitOn ",").mapM fun e =>
+    match e.splitOn "=" with
+    | [k] => do let k ← k.toNat?; pure (k, some k)
+    | [k, "x"] => do let k ← k.toNat?; pure (k, none)
+    | [k, d] => do let k ← k.toNat?; let d ← d.toNat?; pure (k, some d)
+    | _ => none
+
+/-- run-length encoding of (k, class) in request order -/
+def rle (xs : List (Nat × String)) : String :=
+  let rec go : List (Nat × String) → Option (Nat × Nat × String) → List String → List String
+    | [], none, acc => acc.reverse
+    | [], some (a, b, c), acc => ((if a == b then s!"{a}:{c}" else s!"{a}-{b}:{c}") :: acc).reverse
+    | (k, c) :: rest, none, acc => go rest (some (k, k, c)) acc
+    | (k, c) :: rest, some (a, b, c'), acc =>
+      if c == c' then go rest (some (a, k, c')) acc
+      else go rest (some (k, k, c)) ((if a == b then s!"{a}:{c'}" else s!"{a}-{b}:{c'}") :: acc)
+  " ".intercalate (go xs none [])
+
+/-! classes -/
+
+def stlClass (bs : List UInt8) : String :=
+  match readStl bs with
+  | .ok tris => s!"ok:{tris.length}"
+  | .error _ => "err"
+
+def splatClass (bs : List UInt8) : String :=
+  let o := Splat.readRecs bs
+  s!"ok:{o.recs.length}:{if o.short then 1 else 0}"
+
+def spzClass (bs : List UInt8) : String :=
+  match Spz.readRaw bs with
+  | .ok a => s!"ok:{a.header.numPoints}:{Spz.shDim a.header.shDegree}"
+  | .error _ => "err"
+
+def ptsClass (bs : List UInt8) : String :=
+  match readPts goLex bs with
+  | .ok ps =>
+    let hasI := ps.any (fun p => p.intensity.isSome)
+    let hasC := ps.any (fun p => p.color.isSome)
+    s!"ok:{ps.length}:{if hasI then 1 else 0}:{if hasC then 1 else 0}"
+  | .error _ => "err"
+
+/-- vertices and indices of the mesh `MeshReader.Read` builds (reader.go:537-546: with per-corner
+    texture coordinates the mesh is unwelded, one vertex per index) -/
+def plyCounts (h : Hdr) (nverts : Nat) (pts : Option (List Nat)) : String :=
+  match pts with
+  | none => s!"ok:{nverts}:{nverts}"
+  | some ps =>
+    let nidx := (ps.map fun p => if p == 4 then 6 else 3).sum
+    let nuv := match h.face.bind (·.tex) with | some _ => nidx | none => 0
+    s!"ok:{if nuv == nidx then nidx else nverts}:{nidx}"
+
+def plyClass (h : Hdr) (bs : List UInt8) : String :=
+  match readPly goLex h bs with
+  | .error _ => "err"
+  | .ok (.bin m) => plyCounts h m.verts.length (h.face.map fun _ => m.faces.map (·.points))
+  | .ok (.ascii m) => plyCounts h m.verts.length (h.face.map fun _ => m.faces.map (·.1))
+
+/-- header description: fmt vcount vsize nprops hasface [fcount idx tex nlists (countSize elemSize)*] -/
+def hdr? : List String → Option (Hdr × List String)
+  | fmt :: vc :: vs :: np :: "0" :: rest => do
+      let f ← match fmt with | "ascii" => some Fmt.ascii | "le" => some Fmt.le | "be" => some Fmt.be | _ => none
+      pure (⟨f, ← vc.toNat?, ← vs.toNat?, ← np.toNat?, none⟩, rest)
+  | fmt :: vc :: vs :: np :: "1" :: fc :: idx :: tex :: nl :: rest => do
+      let f ← match fmt with | "ascii" => some Fmt.ascii | "le" => some Fmt.le | "be" => some Fmt.be | _ => none
+      let nl ← nl.toNat?
+      let nums ← (rest.take (2 * nl)).mapM String.toNat?
+      if nums.length ≠ 2 * nl then none
+      let rec pairs : List Nat → List ListProp
+        | a :: b :: r => ⟨a, b⟩ :: pairs r
+        | _ => []
+      let texI ← tex.toInt?
+      pure (⟨f, ← vc.toNat?, ← vs.toNat?, ← np.toNat?,
+             some ⟨← fc.toNat?, pairs nums, ← idx.toNat?, if texI < 0 then none else some texI.toNat⟩⟩, rest.drop (2 * nl))
+  | _ => none
+
+def runCuts (cls : List UInt8 → String) (hex spec : String) : Option String := do
+  let bs ← hexBytes? hex
+  let cs ← cuts? spec bs.length
+  pure (rle (cs.map fun (k, d) => (k, match d with | some d => cls (bs.take d) | none => "err")))
+
+/-! oracle: the prefix-restriction predicate of Props/C14 on the implementation's own outputs -/
+
+structure Summary where
+  attrs : List (String × List String)
+  prims : List String
+deriving Repr
+
+/-- "A name n d1..dn" blocks then "I n i1..in", up to a "|" separator -/
+partial def summary? : List String → Summary → Option (Summary × List String)
+  | [], s => some (s, [])
+  | "|" :: rest, s => some (s, rest)
+  | "A" :: name :: n :: rest, s => do
+      let n ← n.toNat?
+      if rest.length < n then none
+      summary? (rest.drop n) { s with attrs := s.attrs ++ [(name, rest.take n)] }
+  | "I" :: n :: rest, s => do
+      let n ← n.toNat?
+      if rest.length < n then none
+      summary? (rest.drop n) { s with prims := s.prims ++ rest.take n }
+  | _, _ => none
+
+/-- `m` is a prefix-restriction of `x`: every attribute of `m` is an attribute of `x` and its per-vertex
+    values are a prefix of `x`'s; the primitives of `m` are a prefix of `x`'s.  For the formats that are
+    not record-streamed (`streamed = false`) the result must moreover be complete. -/
+def prefixOf (streamed : Bool) (m x : Summary) : Bool :=
+  m.attrs.all (fun (n, vs) =>
+    match x.attrs.lookup n with
+    | some ws => vs.isPrefixOf ws && (streamed || vs.length == ws.length)
+    | none => false)
+  && m.prims.isPrefixOf x.prims && (streamed || m.prims.length == x.prims.length)
+
+def handle (op : String) (args : List String) : Option String :=
+  match op, args with
+  | "c14.stl.cuts", [hex, spec] => runCuts stlClass hex spec
+  | "c14.stl.cut", [hex] => (hexBytes? hex).map stlClass
+  | "c14.splat.cuts", [hex, spec] => runCuts splatClass hex spec
+  | "c14.splat.cut", [hex] => (hexBytes? hex).map splatClass
+  | "c14.spz.cuts", [hex, spec] => runCuts spzClass hex spec
+  | "c14.spz.cut", [hex] => (hexBytes? hex).map spzClass
+  | "c14.pts.cuts", [hex, spec] => runCuts ptsClass hex spec
+  | "c14.pts.cut", [hex] => (hexBytes? hex).map ptsClass
+  | "c14.ply.cuts", _ => do
+      let (h, rest) ← hdr? args
+      match rest with
+      | [hex, spec] => runCuts (plyClass h) hex spec
+      | _ => none
+  | "c14.ply.cut", _ => do
+      let (h, rest) ← hdr? args
+      match rest with
+      | [hex] => (hexBytes? hex).map (plyClass h)
+      | _ => none
+  | "c14.holds.prefix_only", _fmt :: streamed :: _k :: rest => do
+      let (x, rest) ← summary? rest ⟨[], []⟩
+      let (m, _) ← summary? rest ⟨[], []⟩
+      pure (boolStr (prefixOf (streamed == "1") m x))
+  | _, _ => none
 
 end Driver.C14
 
